@@ -30,7 +30,11 @@ def gen(rng, tier):
         focus["kinds"] = ks
     if rng.random() < 0.5:
         focus["density"] = 0.5
-    return C.forward_spec(rng, tier, focus)
+    return C.maybe_history(rng, C.forward_spec(rng, tier, focus), 0.3)
+
+
+def extra_candidates(spec):
+    return C.history_candidates(spec)
 
 
 
@@ -42,6 +46,11 @@ def check_trace(res, tr):
         res.count("edge_" + G.KIND_NAME[k])
     started = {tid: False for tid in st.order}
     prev = {}
+    hist = getattr(tr, "history", None)
+    # "FINISHED from the start" is defined for a full initialisation; a continuation (state kept) starts from whatever
+    # the first call left, and an appended re-run (state reset, log kept) is judged by the same rule as a fresh run
+    check_exempt = hist is None or hist["state"]
+    off = getattr(tr, "log_offset", 0)
     for tid in st.order:
         if st.exempt(tid):
             res.count("exempt_task")
@@ -54,7 +63,7 @@ def check_trace(res, tr):
         for tid in st.order:
             s = T[tid][0]
             if st.exempt(tid):
-                if s != FINISHED:
+                if s != FINISHED and check_exempt:
                     res.add("exempt_finished", "C01.exempt_not_finished",
                             "task %s has default progress >= 1 but is %s at %s" % (tid, SNAME.get(s, s), label), t)
                 continue
@@ -88,7 +97,7 @@ def check_trace(res, tr):
     steps = C.full_steps(rec)
     for tid in st.order:
         task = tr.ix.task[tid]
-        log = [int(x) for x in task.state_record_list]
+        log = [int(x) for x in task.state_record_list][off:]
         if len(log) != len(steps):
             # alignment is C08's business; compare the common prefix only
             pass
